@@ -216,7 +216,8 @@ fn any_dependency_changed<Db: Database>(db: &Db, derived_node_id: DerivedNodeId)
 fn source_node_changed_since<Db: Database>(db: &Db, key: Key, since: Epoch) -> bool {
     match db.get_storage().internal.get_source_node(key) {
         Some(source) => source.time_updated > since,
-        None => true,
+        // absent: changed only if it was removed after the dependency was recorded
+        None => db.get_storage().internal.source_removed_at(key) > since,
     }
 }
 
